@@ -47,6 +47,8 @@ type Solver struct {
 	Errors    []string
 	timeoutMS int
 	Log       io.Writer // optional transcript
+	Slow      []string
+	TDefine, TWait, TModel time.Duration
 	stack     []*Term   // assertions currently on the solver's assertion stack, one level each
 	Incremental bool
 }
@@ -200,7 +202,13 @@ func (s *Solver) readLine() (string, error) {
 // true it returns the values of all variables of the context (indexed by VarIdx).
 func (s *Solver) Check(asserts []*Term, wantModel bool) (Result, []uint64) {
 	t0 := time.Now()
-	defer func() { s.Time += time.Since(t0) }()
+	defer func() {
+		d := time.Since(t0)
+		s.Time += d
+		if d > 100*time.Millisecond && len(s.Slow) < 20 {
+			s.Slow = append(s.Slow, fmt.Sprintf("q%d %v asserts=%d lastsize=%d stack=%d", s.Queries, d, len(asserts), dagSize(asserts[len(asserts)-1]), len(s.stack)))
+		}
+	}()
 	s.Queries++
 	nerr := len(s.Errors)
 	for _, a := range asserts {
@@ -209,6 +217,7 @@ func (s *Solver) Check(asserts []*Term, wantModel bool) (Result, []uint64) {
 			return Unsat, nil
 		}
 	}
+	td := time.Now()
 	for _, a := range asserts {
 		s.define(a)
 	}
@@ -246,6 +255,8 @@ func (s *Solver) Check(asserts []*Term, wantModel bool) (Result, []uint64) {
 	}
 	s.send("(check-sat)\n")
 	s.in.Flush()
+	s.TDefine += time.Since(td)
+	tw := time.Now()
 	res := Unknown
 	line, err := s.readLine()
 	if err != nil {
@@ -262,6 +273,9 @@ func (s *Solver) Check(asserts []*Term, wantModel bool) (Result, []uint64) {
 		}
 		res = Unknown
 	}
+	s.TWait += time.Since(tw)
+	tm := time.Now()
+	defer func() { s.TModel += time.Since(tm) }()
 	hadErr := len(s.Errors) > nerr
 	switch line {
 	case "sat":
@@ -350,4 +364,20 @@ func parseModel(txt string, ctx *Ctx, model []uint64) {
 		}
 		model[v.VarIdx] = x
 	}
+}
+
+func dagSize(t *Term) int {
+	seen := map[*Term]bool{}
+	var rec func(t *Term)
+	rec = func(t *Term) {
+		if t == nil || seen[t] {
+			return
+		}
+		seen[t] = true
+		for i := 0; i < t.N; i++ {
+			rec(t.A[i])
+		}
+	}
+	rec(t)
+	return len(seen)
 }
